@@ -124,6 +124,18 @@ theorem vecRun_cols (symmetric : Bool) (v0 : Vector K n) (k : Nat) :
     (vecRun A sqrt tol symmetric v0 k).vs.map toFn = (modRun A sqrt tol symmetric v0 k).vs := by
   rw [← vecRun_map]; exact ⟨rfl, rfl, rfl⟩
 
+/-- the list-level function the driver calls (`approxEigVec`, instantiated with `Float` in `approxEigFloat`) is the
+`Vector` run of `min(n, maxiter)` passes -/
+theorem approxEigVec_eq (A : List (List K)) (symmetric : Bool) (maxiter : Nat) (v0 : List K)
+    (A' : Vector (Vector K v0.length) v0.length) (v0' : Vector K v0.length)
+    (hA : toMat? v0.length A = some A') (hv : toVec? v0.length v0 = some v0') (hm : min v0.length maxiter ≠ 0) :
+    approxEigVec sqrt ltK iszK A tol symmetric maxiter v0 =
+      some (((vecRun A' sqrt tol symmetric v0' (min v0.length maxiter)).vs.map (·.toList)),
+        (vecRun A' sqrt tol symmetric v0' (min v0.length maxiter)).cols,
+        (vecRun A' sqrt tol symmetric v0' (min v0.length maxiter)).brk) := by
+  simp only [approxEigVec, hA, hv, approxEig, hm, if_false]
+  rfl
+
 theorem exact_vec (hsq : ∀ a, 0 ≤ a → sqrt a * sqrt a = a) (htol : 0 < tol) (v0 : Vector K n)
     (hv0 : toFn v0 ≠ 0) : Exact (dotForm K n) sqrt tol (toFn v0) :=
   ⟨dotForm_def, hsq, htol, hv0⟩
